@@ -56,12 +56,21 @@ subhandler = ""
 [mapping.keys.map]
 KEY_A = "%d"
 KEY_S = "%d"
+[[mapping.analog]]
+subhandler = ""
+default_deadzone = 0.1
+[mapping.analog.map]
+ABS_X = { type = "cc", cc = 20, cc_negative = 21 }
 `
 
 var hnd = input.Handler{Name: "", DeviceInfo: input.VerifDeviceInfo("event3", "Dummy", "phys0", input.InputID{}, "", nil)}
 
 func key(name string, v int32) *input.InputEvent {
 	return &input.InputEvent{Source: hnd, Event: evdev.InputEvent{Type: evdev.EV_KEY, Code: evdev.KEYFromString[name], Value: v, Time: syscall.Timeval{}}}
+}
+
+func axis(v int32) *input.InputEvent {
+	return &input.InputEvent{Source: hnd, Event: evdev.InputEvent{Type: evdev.EV_ABS, Code: evdev.ABS_X, Value: v, Time: syscall.Timeval{}}}
 }
 
 var cfgCache = map[string]config.Config{}
@@ -77,7 +86,7 @@ func newDevice(ch, note int, out chan midi.Event, midiIn chan midi.Event) *devic
 		}
 		cfgCache[k] = cfg
 	}
-	in := input.Device{Name: "Dummy", DeviceType: input.KeyboardDevice, Handlers: []input.Handler{hnd}, AbsInfos: map[string]map[evdev.EvCode]evdev.AbsInfo{}}
+	in := input.Device{Name: "Dummy", DeviceType: input.KeyboardDevice, Handlers: []input.Handler{hnd}, AbsInfos: map[string]map[evdev.EvCode]evdev.AbsInfo{"event3": {evdev.ABS_X: {Minimum: -128, Maximum: 127}}}}
 	var mi <-chan midi.Event
 	if midiIn != nil {
 		mi = midiIn
@@ -170,6 +179,7 @@ type scen struct {
 	two           bool
 	stall         bool // the whole process is stalled (suspend, CPU starvation) for 6 s of virtual time at an arbitrary moment
 	noMatch       bool // the LED server knows no controller for this device
+	axisRest      bool // the script moves the bidirectional axis and ends with it at rest
 	pace          int  // the feeder sleeps this many times before every event and before closing the stream (lets LED frames happen in between)
 	faults        int  // number of OpenRGB calls the environment may fail (every placement)
 }
@@ -226,6 +236,17 @@ func (sc scen) run() {
 		vsched.Go("device"+tag, func() {
 			dev.ProcessEvents(in)
 			vsched.Observe("processevents-returned"+tag, true)
+			if !sc.two { // "leaves no background activity behind": nothing the device code started is still alive now
+				var left []string
+				for _, l := range vsched.Unfinished() {
+					if strings.Contains(l, ".go:") && !strings.Contains(l, "main.go:") {
+						left = append(left, l)
+					}
+				}
+				if len(left) > 0 {
+					vsched.Observe("left-behind", strings.Join(left, ", "))
+				}
+			}
 		})
 		vsched.Go("feeder"+tag, func() {
 			for _, e := range evs {
@@ -319,6 +340,31 @@ func (sc scen) check(solo map[string][]string) func(x *vsched.Execution) []vsche
 				vs = append(vs, vsched.Violation{"termination-not-prompt", "device" + tag, fmt.Sprintf("device %s: %v of (virtual) time passed between the end of its event stream and the return of ProcessEvents", tag, retAt-closedAt)})
 			}
 		}
+		if sc.axisRest {
+			// what the receiver holds once everything has been delivered: the stick is at rest, both controllers are 0 -
+			// however slowly the output was read (a full output queue must delay the device, never lose a message)
+			cc := map[int]int{}
+			n := 0
+			for _, o := range x.Obs {
+				if o.Kind == "out" {
+					var st, a, b int
+					fmt.Sscanf(o.Val.(string), "%x %x %x", &st, &a, &b)
+					if st&0xf0 == 0xb0 {
+						cc[a] = b
+						n++
+					}
+				}
+			}
+			if cc[20] != 0 || cc[21] != 0 {
+				vs = append(vs, vsched.Violation{"axis-at-rest-controller-nonzero", sc.name, fmt.Sprintf("the axis ended at rest, all output was delivered (%d controller messages), yet the receiver holds cc20=%d cc21=%d", n, cc[20], cc[21])})
+			}
+		}
+		for _, o := range x.Obs {
+			if o.Kind == "left-behind" {
+				vs = append(vs, vsched.Violation{"background-activity-left-behind", strings.SplitN(fmt.Sprint(o.Val), "@", 2)[0], fmt.Sprintf("ProcessEvents has returned but threads it started are still alive: %v", o.Val)})
+				break
+			}
+		}
 		if sc.rgb {
 			last := ""
 			for _, o := range x.Obs {
@@ -372,6 +418,10 @@ func scenarios(tier string) []scen {
 	s = append(s, scen{name: "openrgb connected, the process stalls for 6 s at some point", events: two[:1], rgb: true, stall: true, pace: 1, dBound: -1},
 		scen{name: "no-openrgb, the process stalls for 6 s at some point", events: two[:1], stall: true, pace: 1, dBound: -1})
 	s = append(s, scen{name: "openrgb connected but no controller matches the device", events: two[:1], rgb: true, noMatch: true, pace: 1, dBound: -1})
+	// the 129-message panic burst through a slow (capacity 1) output, then the device goes away
+	s = append(s, scen{name: "no-openrgb, panic through a slow output, then disconnect", events: []*input.InputEvent{key("KEY_ESC", 1)}, dBound: -1})
+	// a bidirectional axis swung from one end stop to the other and back to rest through the slow output
+	s = append(s, scen{name: "no-openrgb, bidirectional axis through a slow output", events: []*input.InputEvent{axis(127), axis(-128), axis(0)}, axisRest: true})
 	// environment faults: the LED server refuses / drops up to two calls, or goes away for good, at every possible call
 	s = append(s, scen{name: "openrgb with faults (<=2 failing calls or server gone), press + release", events: []*input.InputEvent{key("KEY_A", 1), key("KEY_A", 0)}, rgb: true, faults: 2, pace: 2, dBound: -2})
 	if tier == "thorough" {
